@@ -7,7 +7,7 @@ WT=$1; PATCH=$2; DEMO=$3
 B=$WT/_build
 export LD_LIBRARY_PATH=$B/src/xalanc:$B/src/xalanc/Utils/XalanMsgLib
 cd $WT || exit 2
-git checkout -q -- . 
+git reset -q --hard
 echo "== build unchanged"; cmake --build $B -j8 2>&1 | tail -1
 echo "== demo without change"; (cd $DEMO && bash ./demo.sh $B >/tmp/seed-demo-without.log 2>&1); R0=$?; echo "exit=$R0"
 echo "== apply"; git apply --3way $PATCH 2>&1 | tail -2 || git apply $PATCH || { echo APPLY-FAILED; exit 2; }
@@ -15,6 +15,6 @@ git status --short | grep -v '^??' | head
 echo "== build with change"; cmake --build $B -j8 2>&1 | tail -1; BR=${PIPESTATUS[0]}
 echo "== ctest with change"; ctest --test-dir $B -j8 --timeout 900 2>&1 | grep "tests passed\|tests failed"
 echo "== demo with change"; (cd $DEMO && bash ./demo.sh $B >/tmp/seed-demo-with.log 2>&1); R1=$?; echo "exit=$R1"
-git checkout -q -- . ; git reset -q
+git reset -q --hard
 echo "== rebuild unchanged"; cmake --build $B -j8 2>&1 | tail -1
 echo "SUMMARY build_rc=$BR demo_without=$R0 demo_with=$R1"
